@@ -44,3 +44,5 @@ mod cli_fail;
 mod cli_glue;
 #[cfg(kani)]
 mod c09_derive;
+#[cfg(all(kani, feature = "help"))]
+mod c12_content;
